@@ -751,7 +751,11 @@ fn date(i: &str) -> IResult<&str, builder::Term, Error> {
 }
 
 fn parse_bytes(i: &str) -> IResult<&str, Vec<u8>, Error> {
-    preceded(tag("hex:"), parse_hex)(i)
+    // an empty byte array is printed as `hex:`
+    preceded(
+        tag("hex:"),
+        map(opt(parse_hex), |bytes| bytes.unwrap_or_default()),
+    )(i)
 }
 
 fn parse_hex(i: &str) -> IResult<&str, Vec<u8>, Error> {
